@@ -34,6 +34,14 @@ def run(tier, seed, t0):
         e = dev[m[1] - 1]
         v.violation({"property": PID, "event": e, "what": "%s on %s (%s)%s: reachable memory unchanged=%s, repeatable=%s" % (
             e["m"], json.dumps(e.get("A"))[:300], e.get("viaA"), " with argument %s" % json.dumps(e.get("B"))[:200] if e.get("B") else "", e["unchanged"], e["repeatable"])})
+    # (a') history independence: every unary call on fresh objects in two fresh processes, in opposite orders
+    fwd = json.loads(vlib.run_harness(["c16solo", od, "fwd"]))
+    rev = json.loads(vlib.run_harness(["c16solo", od, "rev"]))
+    order_dependent = [k for k in fwd if fwd[k] != rev.get(k)]
+    for k in order_dependent[:20]:
+        v.violation({"property": PID, "event": {"call": k, "forward": fwd[k], "reverse": rev.get(k)},
+                     "what": "unary call %s on pool object (%s) returns different values depending on the calls made before it in the process "
+                             "(hash %s after the forward sweep, %s after the reverse sweep)" % (k, fwd[k].split(" ", 1)[1], fwd[k].split()[0], str(rev.get(k)).split()[0])})
     # (b) schedule exploration under the race detector
     vlib.build_harness_race()
     G, K = (16, 3000) if tier == "quick" else (32, 20000)
@@ -58,6 +66,7 @@ def run(tier, seed, t0):
             v.violation({"property": PID, "event": e, "call": c, "what": "goroutine %d got a different reply than the same call run alone: %s on pool objects %s,%s" % (e["g"], c["m"], c["a"], c["b"])})
     rc = v.finish()
     cov = {
+        "history_independence_calls": len(fwd), "history_dependent_replies": len(order_dependent),
         "states": faithful.distinct + lazy.distinct + dr.distinct + sr.distinct,
         "transitions": faithful.generated + lazy.generated + dr.generated + sr.generated,
         "traces_validated_against_impl": 2,
